@@ -47,6 +47,12 @@ func observe(c Case) (observation, *rec.Outcome) {
 		return o, nil
 	}
 	o.format = prog.Format()
+	if rec.UnboundedRepetition(prog) {
+		// a repetition with a large count exhausts the host's memory in one allocation (C02's finding F53):
+		// such a program is parsed and formatted here, not run
+		o.outcome = "budget"
+		return o, nil
+	}
 	res := rec.RunProg(prog, rec.Opts{Inputs: c.Inputs, Fuel: 30000, MaxLog: 5000, RandSeed: 7}, nil)
 	if res.Out.Class == "gopanic" {
 		return o, &res.Out
